@@ -20,6 +20,7 @@ Definition dec_op (x : sx) : option qop :=
   | SL [SZ 3] => Some QPeek
   | SL [SZ 4; SZ k] => Some (QPeekN k)
   | SL [SZ 5] => Some QEmpty
+  | SL [SZ 6] => Some QDropLast
   | _ => None
   end.
 Definition dec_input (x : sx) : option (bool * list qop) :=
